@@ -150,7 +150,7 @@ func perturb(r *hk.Rand, ops []hdrOp) []hdrOp {
 		switch {
 		case r.Chance(12):
 			continue
-		case r.Chance(20) && op.Kind == "set":
+		case r.Chance(20) && op.Kind == "set" && !fixedValue[strings.ToLower(op.K)]:
 			op.V = genValue(r)
 		}
 		out = append(out, op)
@@ -160,6 +160,11 @@ func perturb(r *hk.Rand, ops []hdrOp) []hdrOp {
 	}
 	return out
 }
+
+// fields whose value means something to the protocol writers (HTTP/2 refuses e.g. a Connection
+// header other than keep-alive / close): their generated value is kept
+var fixedValue = map[string]bool{"connection": true, "keep-alive": true, "proxy-connection": true, "upgrade": true,
+	"transfer-encoding": true, "host": true, "content-length": true, "user-agent": true, "accept-encoding": true, "cookie": true, "te": true}
 
 func genSeq(r *hk.Rand, proto, idx int) seqScenario {
 	base := genScenario(r, proto, idx)
@@ -340,28 +345,46 @@ func estListSize(sc scenario) int {
 	return n
 }
 
-func coqSeq(sq seqScenario, res []stepResult) string {
-	var steps []string
+// coqSeq renders a sequence as SeqCases. The peer's header-list limit is applied by the model only
+// to steps that are NOT the first on their connection: a new connection learns the peer's SETTINGS
+// while its first request is already on its way, so for that one either behaviour is legitimate.
+func coqSeq(sq seqScenario, res []stepResult) []string {
+	lim := "None"
+	if sq.Limit > 0 {
+		lim = fmt.Sprintf("(Some %d%%N)", sq.Limit)
+	}
+	var out, cur []string
+	flush := func() {
+		if len(cur) > 0 {
+			out = append(out, fmt.Sprintf("SeqCase %d %s %s", sq.Proto, lim, hk.CoqList(cur)))
+			cur = nil
+		}
+	}
+	lastConn := -1
 	for k, st := range sq.Steps {
 		rs := res[k]
 		q := coqCreq(&rs.capt, st.Sc)
 		switch rs.outcome {
 		case "sent":
-			steps = append(steps, hk.CoqPair(q, "SSent "+coqLines(rs.obs.Fields)))
-		case "refused":
-			steps = append(steps, hk.CoqPair(q, "SRefused"))
-		default:
-			if rs.capt.hdr == nil {
-				continue // failed before it reached the transport
+			step := hk.CoqPair(q, "SSent "+coqLines(rs.obs.Fields))
+			if rs.obs.ConnSeq != lastConn && sq.Proto == 2 {
+				flush()
+				out = append(out, fmt.Sprintf("SeqCase %d None %s", sq.Proto, hk.CoqList([]string{step})))
+			} else {
+				cur = append(cur, step)
 			}
-			steps = append(steps, hk.CoqPair(q, "SFailed"))
+			lastConn = rs.obs.ConnSeq
+		case "refused":
+			cur = append(cur, hk.CoqPair(q, "SRefused"))
+		default:
+			lastConn = -1 // whatever follows may be on a new connection
+			if rs.capt.hdr != nil {
+				cur = append(cur, hk.CoqPair(q, "SFailed"))
+			}
 		}
 	}
-	lim := "None"
-	if sq.Limit > 0 {
-		lim = fmt.Sprintf("(Some %d%%N)", sq.Limit)
-	}
-	return fmt.Sprintf("SeqCase %d %s %s", sq.Proto, lim, hk.CoqList(steps))
+	flush()
+	return out
 }
 
 // ---------- families of cloned clients ----------
@@ -580,8 +603,10 @@ func runSequences(r *hk.Run, rng *hk.Rand) {
 					r.Count("seq." + pn + ".sent-after-" + sq.Steps[k-1].Kind)
 				}
 			}
-			r.Add(hk.Case{Coq: coqSeq(sq, res), Desc: map[string]interface{}{"kind": "sequence-" + pn, "sequence": sq}},
-				fmt.Sprintf("seq|%+v", sq), len(sq.Steps) >= 2)
+			for ci, c := range coqSeq(sq, res) {
+				r.Add(hk.Case{Coq: c, Desc: map[string]interface{}{"kind": "sequence-" + pn, "sequence": sq, "part": ci}},
+					fmt.Sprintf("seq|%d|%+v", ci, sq), len(sq.Steps) >= 2)
+			}
 		}
 		frng := rng.Fork()
 		for i := 0; i < pr.nFam; i++ {
